@@ -286,6 +286,24 @@ def check_C06(chk):
     chk.assumptions += ["edge-triggered epoll semantics (ready list, re-arming on arrival and hang-up, EPOLL_CTL_DEL) are kernel behaviour: modelled in RSet.v, validated by "
                         "the runs with more than 10 ready members and adds while readable",
                         "real thread scheduling is not exhibited by the model: the theorems cover every interleaving, the concurrent runs sample some"]
+    # a member whose sender process dies at every point of a multi-fragment send (crash driver, observed through a set that only
+    # polls after the crash): the messages sent completely are reported, and the closure - or the survivor's message - follows
+    from . import props_conc as PCN
+    shapes = PCN.crash_shapes(4096)
+    ccases, cid = [], itertools.count(1)
+    for npk in (2, 3):
+        ncalls = 1 + (3 + npk) + 1
+        for k in range(0, ncalls + 2):
+            for surv in (0, 1):
+                ccases.append({"id": next(cid), "len": shapes[npk], "k": k, "survivor": surv, "natt": 0, "observe": "select", "npk": npk, "S": 4096})
+    for it in PCN.run_crash(bins["default"], 4096, ccases):
+        why = PCN.crash_oracle(it)
+        if why:
+            fails.append((it, why))
+            c = it["case"]
+            chk.failing_input("a set member whose sender process was killed before its call %d of a %d-packet send: %s" % (c["k"], c["npk"], why),
+                              {"input": c, "child_progress": it["child"], "observed": it["rec"]}, key="c06crash:npk=%d k=%d survivor=%d" % (c["npk"], c["k"], c["survivor"]))
+    chk.coverage["crash_member_scenarios"] = len(ccases)
     # the typed IpcReceiverSet inside whole-API programs (members with embedded endpoints / regions / undecodable messages, sets dropped
     # with pending traffic), against the Api model: default and in-process builds
     from . import props_prog as PP
